@@ -236,6 +236,7 @@ func newSubscriber(reqID string, msg *ClientReqMsg, ch chan ServerMsg) *subscrib
 
 func (sub *subscriber) SendIfMatch(event *Event) {
 	if sub.Matcher.Match(event) {
+		verifPoint("router.publish.send")
 		trySendCtx(context.TODO(), sub.Ch, ServerMsg(NewServerEventMsg(sub.SubscriptionID, event)))
 	}
 }
@@ -257,6 +258,7 @@ func (subs *subscribers) Subscribe(sub *subscriber) {
 		m = newSafeMap[string, *subscriber]()
 		subs.subs.Add(sub.ReqID, m)
 	}
+	verifPoint("router.subscribe.add")
 
 	m.Add(sub.SubscriptionID, sub)
 }
@@ -537,6 +539,7 @@ func (ss *mergeHandlerSession) handleRecv(ctx context.Context, recv <-chan Clien
 				return
 			}
 			msg = ss.handleRecvMsg(msg)
+			verifPoint("merge.recv.broadcast")
 			ss.broadcastRecvs(ctx, msg)
 		}
 	}
@@ -611,6 +614,7 @@ func (ss *mergeHandlerSession) handleSend(ctx context.Context, send chan<- Serve
 
 		case msg := <-ss.preSendCh:
 			m := ss.handleSendMsg(msg)
+			verifPoint("merge.send.out")
 			sendServerMsgCtx(ctx, send, m)
 		}
 	}
